@@ -244,6 +244,28 @@ class Built:
                     out.append(o.__xpm__.raw_identifier.all.hex())
                 elif k == "jobpath":
                     out.append("path:" + str(o.__xpm__.job.relpath))
+                elif k in ("copyconfig", "clone"):
+                    # the documented ways to get a modifiable version of a (possibly frozen) configuration:
+                    # copyconfig(o, name=v) and o.copy(); the change goes to the copy, o itself is untouched
+                    from experimaestro import copyconfig
+                    if k == "copyconfig":
+                        c = copyconfig(o, **{op["name"]: self.val(op["v"])})
+                    else:
+                        c = o.copy()
+                        setattr(c, op["name"], self.val(op["v"]))
+                    problems = []
+                    if c is o:
+                        problems.append("same-object")
+                    if c.__xpm__._sealed:
+                        problems.append("copy-sealed")
+                    if self._ev(c.__xpm__.values.get(op["name"])) != self._ev(self.val(op["v"])) and op["v"]["t"] not in ("ref", "out"):
+                        problems.append("value-not-applied")
+                    if k == "clone":
+                        for nm, x in c.__xpm__.values.items():
+                            if isinstance(x, Config) and x is o.__xpm__.values.get(nm) and x.__xpm__._sealed:
+                                problems.append("shared-sealed-child")
+                                break
+                    out.append("ok" if not problems else "copybad:" + ",".join(problems))
                 elif k == "resubmit":
                     # a second submit() of an already submitted task object must be refused and change nothing
                     try:
